@@ -274,11 +274,22 @@ def main():
                     rc, outp = native_run(d, [x["harness"] for x in by_pkg[d]], [(h["harness"], f)], tcfg.get("replay_timeout", 40))
                     cl = classify(rc, outp)
                     rec["native_output_tail"] = outp[-1200:]
+                if cl == "pass" and h["harness"] in cfg.get("schedule_harnesses", []) and v.get("schedule"):
+                    # the violation needs a particular interleaving: stress the native run a few times, then report it
+                    # with the engine's schedule (the native scheduler cannot be forced without hooks in /repo)
+                    for _ in range(tcfg.get("schedule_stress_runs", 10)):
+                        rc, outp = native_run(d, [x["harness"] for x in by_pkg[d]], [(h["harness"], f)], tcfg.get("replay_timeout", 40))
+                        cl = classify(rc, outp)
+                        if cl != "pass":
+                            break
+                    if cl == "pass":
+                        cl = "schedule-not-forced"
+                    rec["native_output_tail"] = outp[-1200:]
                 rec["native_replay"] = cl
                 json.dump(rec, open(f, "w"), indent=1)
                 replayed.append((h["harness"], v["assertion"], cl, f))
                 confirmed = cl.startswith("assert:") or cl in ("panic", "hang")
-                if confirmed or cl == "not-replayed":
+                if confirmed or cl in ("not-replayed", "schedule-not-forced"):
                     violations.append((h["harness"], v["assertion"], v.get("message", ""), f, cl))
                 else:
                     inconclusive.append("%s/%s: counterexample did not reproduce natively (%s) - encoder or stub suspect; cex kept at %s"
